@@ -100,8 +100,9 @@ def api_case(res, src, what, outcomes, assemble_it=True):
         where = diff.innermost_hidc_frame(e)
         key = f'INTERNAL {type(e).__name__} @ {where}'
         outcomes[key] = outcomes.get(key, 0) + 1
-        runner.fail(res, 'M-EXC', f'{what}: {type(e).__name__}: {str(e)[:100]} escapes from {where}', {'source': src, 'what': what},
-                    mechanism=None)
+        mech = 'int-str-digit-limit' if isinstance(e, ValueError) and 'Exceeds the limit' in str(e) and 'integer string conversion' in str(e) else None
+        runner.fail(res, 'M-EXC', f'{what}: {type(e).__name__}: {str(e)[:100]} escapes from {where}', {'source': src[:3000], 'what': what},
+                    mechanism=mech)
         return
     outcomes['compiled'] = outcomes.get('compiled', 0) + 1
     if assemble_it:
@@ -316,6 +317,12 @@ def run_shard(spec):
                 api_case(res, r.choice(base), 'generated program', outcomes)
         for src in muts:
             api_case(res, src, 'C07 mutant', outcomes)
+        if spec['seed'] % 1000 == 0:
+            # deterministic witnesses of the recorded finding int-str-digit-limit, and their in-range neighbours
+            api_case(res, 'empty @is_you() { write(' + '9' * 5000 + '); }', 'decimal literal with 5000 digits', outcomes)
+            api_case(res, 'empty @is_you() { write(0x' + 'F' * 4000 + '); }', 'hex literal with 4000 digits', outcomes)
+            api_case(res, 'empty @is_you() { write(' + '9' * 4000 + '); }', 'decimal literal with 4000 digits', outcomes)
+            api_case(res, 'empty @is_you() { write(0x' + 'F' * 3000 + ' % 7); }', 'hex literal with 3000 digits', outcomes)
     elif k == 'truncations':
         base = corpus(r, spec['seed'], 3)
         for n, src in enumerate(base):
@@ -359,6 +366,27 @@ def run_shard(spec):
         run_cli(res, GOOD, ['--dump-ast'], '--dump-ast')
         run_cli(res, GOOD, [], 'output into a directory', out_mode='dir')
         run_cli(res, GOOD, [], 'output into a missing directory', out_mode='missing')
+        # every kind of CodeGenError: the tool must fail cleanly and leave no output file behind
+        for what, src, opts in (
+                ('no entry point', b'int f() { return 1; }\n', []),
+                ('two entry points', b'empty @is_you() { }\nempty @is_you(int x) { }\n', []),
+                ('entry point returns a value', b'int @is_you() { return 1; }\n', []),
+                ('bool entry parameter', b'empty @is_you(bool b) { }\n', []),
+                ('two array entry parameters', b'empty @is_you(int[] a, int[] b) { }\n', []),
+                ('mutable string[] entry parameter', b'empty @is_you(string[] s) { }\n', []),
+                ('bool[] entry parameter', b'empty @is_you(bool[] b) { }\n', []),
+                ('used global array too large for the word', b'int big[20000];\nempty @is_you() { big[0] = 7; write(big[0]); }\n', []),
+                ('used global byte array too large', b'byte big[40000];\nempty @is_you() { big[0] = 7; write(big[0]); }\n', []),
+                ('global array with a non-constant length', b'int n = 3;\nint arr[n + 1];\nempty @is_you() { write(arr.length); }\n', []),
+                ('global array literal with a variable element', b'int n = 3;\nint[] arr = [n, 2];\nempty @is_you() { n = 4; write(arr[0]); }\n', []),
+                ('global initialised from an array element', b'const int[] t = [1, 2];\nint g = t[0];\nempty @is_you() { write(g); }\n', []),
+                ('global initialised from a length', b'const int[] t = [1, 2];\nint g = t.length;\nempty @is_you() { write(g); }\n', []),
+                ('global string cast', b'string s = "ab";\nconst byte[] b = s is byte[];\nempty @is_you() { write(b); }\n', []),
+                ('stack too large for the word', GOOD, ['-s', '16380']),
+                ('word size 8 bits', GOOD, ['-m', '8']),
+        ):
+            run_cli(res, src, opts, 'code generation error: ' + what, expect_ok=None)
+        run_cli(res, b'int big[20000];\nempty @is_you() { big[0] = 7; write(big[0]); }\n', ['-m', '32'], 'large global array at 32 bits', expect_ok=True)
         run_cli(res, b'', [], 'empty file')
         run_cli(res, b'\n', [], 'newline only')
         run_cli(res, b'empty @is_you() { write(1 / 0); }', [], 'constant division by zero', expect_ok=False)
